@@ -42,14 +42,14 @@ PROPS["C14"] = dict(
                  "maps are association lists with pairwise-distinct symbolic keys; map iteration order irrelevant to Fair/Rate (they index by the list)"],
     groups=[
         dict(mod="v2", pkg="priority/divider", overlay="harness/v2/divider", harness="^VerifC14_fair$", native=True,
-             params=dict(quick=dict(n=[1, 2, 3, 4], E=[1]), thorough=dict(n=[1, 2, 3, 4, 5, 6, 7, 8], E=[2]))),
+             params=dict(quick=dict(n=[1, 2, 3, 4], E=[0, 1]), thorough=dict(n=[1, 2, 3, 4, 5, 6, 7, 8], E=[0, 2]))),
         dict(mod="v1", pkg="priority", overlay="harness/v1/priority", harness="^VerifC14_fair$", native=True,
-             params=dict(quick=dict(n=[1, 2, 3, 4], E=[1]), thorough=dict(n=[1, 2, 3, 4, 5, 6, 7, 8], E=[2]))),
+             params=dict(quick=dict(n=[1, 2, 3, 4], E=[0, 1]), thorough=dict(n=[1, 2, 3, 4, 5, 6, 7, 8], E=[0, 2]))),
         # Rate structure under uninterpreted floats: a pass holds for any float values; a counterexample is a candidate, refined by rate_wide
         dict(mod="v2", pkg="priority/divider", overlay="harness/v2/divider", harness="^VerifC14_(rate_conservation|degenerate)$", approx=True, refined_by="rate_wide",
-             params=dict(quick=dict(n=[1, 2, 3, 4], E=[1]), thorough=dict(n=[1, 2, 3, 4, 5, 6, 7, 8], E=[2]))),
+             params=dict(quick=dict(n=[1, 2, 3, 4], E=[0, 1]), thorough=dict(n=[1, 2, 3, 4, 5, 6, 7, 8], E=[0, 2]))),
         dict(mod="v1", pkg="priority", overlay="harness/v1/priority", harness="^VerifC14_(rate_conservation|degenerate)$", approx=True, refined_by="rate_wide_v1",
-             params=dict(quick=dict(n=[1, 2, 3, 4], E=[1]), thorough=dict(n=[1, 2, 3, 4, 5, 6, 7, 8], E=[2]))),
+             params=dict(quick=dict(n=[1, 2, 3, 4], E=[0, 1]), thorough=dict(n=[1, 2, 3, 4, 5, 6, 7, 8], E=[0, 2]))),
         dict(mod="equiv", pkg="", overlay="harness/equiv/src", harness="^VerifC14_equiv", native=False, approx=True, refined_by="rate_wide",
              params=dict(quick=dict(n=[1, 2, 3, 4]), thorough=dict(n=[1, 2, 3, 4, 5, 6]))),
         dict(name="rate_wide", mod="v2", pkg="priority/divider", overlay="harness/v2/divider", harness="^VerifC14_rate_exact$", native=True, only_as_refinement=True,
@@ -169,7 +169,7 @@ PROPS["C11"] = dict(
     bounds=_JOIN_BOUNDS, assumptions=_JOIN_ASSUME,
     groups=[dict(mod="v2", pkg="join/unite", overlay="harness/v2/unite", harness="^VerifC03_unite_", params=_jp("unite")), _UNITE_WIDE, _UNITE_LARGE])
 
-_LIM = dict(quick=dict(M=[0, 1, 2, 3, 4, 5]), thorough=dict(M=[0, 1, 2, 3, 4, 5, 6]))
+_LIM = dict(quick=dict(M=[0, 1, 2, 3, 4, 5]), thorough=dict(M=[0, 1, 2, 3, 4, 5]))  # M=6: one obligation stays undecided at 600 s per query
 for _pid in ("C04", "C12"):
     PROPS[_pid] = dict(
         level="model_checking",
@@ -178,7 +178,7 @@ for _pid in ("C04", "C12"):
                    ">= (b-a-1) Intervals apart (these imply the two stated count formulas by the 3-line derivation in DESIGN 7 C04); pass-through, close, pause counts for C12.",
         level_note="Bound: M elements (quick <=5, thorough <=7), buffered (prefilled) and unbuffered (parked producer) input. Clock readings < 2^62 ns. Trusted: engine, time model.",
         technique="symbolic execution of go/ssa with a symbolic clock; Int-encoded SMT queries (z3)",
-        bounds=dict(quick="M in 0..5 elements; three arrival patterns (all up-front, eager unbuffered writers, bursts after stalls)", thorough="M in 0..6"),
+        bounds=dict(quick="M in 0..5 elements; three arrival patterns (all up-front, eager unbuffered writers, bursts after stalls)", thorough="as quick, 600 s per query (M=6 leaves one C04 obligation undecided and is not registered)"),
         assumptions=["time model of DESIGN 3.6: lower bounds only (arbitrary delays anywhere); Sleep(d) advances by >= d",
                      "count formulas follow from the per-batch facts: count <= (k+1)*Q and t >= k*I  =>  count <= Q*(floor(t/I)+1); window: (j-i-1)*I <= W => count <= Q*(floor(W/I)+2)"],
         groups=[dict(mod="v2", pkg="limit", overlay="harness/v2/limit", harness="^VerifC04_limit_run", params=_LIM, timeout=dict(quick=120000, thorough=600000))])
@@ -204,7 +204,8 @@ _G_PRIOR = _v2p("^VerifC01_step_prioritize$", dict(n=[1, 2], J=[1]), dict(n=[1, 
 _G_LOOP1 = _v2p("^VerifC07_(loop|main)$", dict(n=[1], J=[1], B=[1], K=[1]), dict(n=[1], J=[2], B=[2], K=[2]))
 _G_PROMPT = _v2p("^VerifC07_prompt$", dict(n=[1, 2, 3], B=[2]), dict(n=[1, 2, 3, 4], B=[3]))
 # (approx: the Rate case runs with uninterpreted floats, so a counterexample that does not replay concretely is only a candidate)
-_G_NEW = _v2p("^VerifC15_new$", dict(n=[1, 2, 3]), dict(n=[1, 2, 3, 4]), approx=True)
+_G_NEW = _v2p("^VerifC15_new$", dict(n=[1, 2, 3]), dict(n=[1, 2, 3, 4]))
+_G_NEW_RATE = _v2p("^VerifC15_new_rate$", dict(n=[1, 2, 3]), dict(n=[1, 2, 3, 4]), approx=True)
 _G_SAFEDIV = _v2p("^VerifC15_safeDivide$", dict(n=[1, 2, 3]), dict(n=[1, 2, 3, 4]), native=True)
 _G_RFAULT = _v2p("^VerifC15_round_fault$", dict(n=[1, 2], Hmax=[3]), dict(n=[1, 2], Hmax=[4]))
 _G_RUNFAULT = _v2p("^VerifC15_run_fault$", dict(n=[1, 2], H=[1, 2], J=[1]), dict(n=[1, 2], H=[1, 2, 3], J=[1, 2]))
@@ -213,7 +214,8 @@ _G_ROUND = _v2p("^Verif(C05_saturated_round|C06_progress|C06_sole_priority)$", d
 _G_SAT3 = _v2p("^VerifC05_saturated_round$", dict(n=[3], Hmax=[3]), dict(n=[3], Hmax=[3]))
 _G_SORTL = _v2p("^VerifC15_sort_large$", dict(n=[9, 17, 40]), dict(n=[9, 17, 40, 130]))
 _G_ROUND2 = _v2p("^VerifC06_progress_two_rounds$", dict(n=[2, 3], Hmax=[3]), dict(n=[2, 3, 4], Hmax=[4]))
-_G_RUN = _v2p("^VerifC02_run$", dict(n=[1, 2], H=[1, 2], J=[1]), dict(n=[1, 2], H=[1, 2, 3], J=[1]), maxpaths=400000, approx=True)
+_G_RUN = _v2p("^VerifC02_run$", dict(n=[1, 2], H=[1, 2], J=[1]), dict(n=[1, 2], H=[1, 2, 3], J=[1]), maxpaths=400000)
+_G_RUN_RATE = _v2p("^VerifC02_run_rate$", dict(n=[1, 2], H=[1, 2], J=[1]), dict(n=[1, 2], H=[1, 2, 3], J=[1]), maxpaths=400000, approx=True)
 _G_SIMPLE = dict(mod="v2", pkg="priority/simple", overlay="harness/v2/simple", harness="^VerifC01_simple_handler$",
                  params=dict(quick=dict(H=[1, 2], K=[3]), thorough=dict(H=[1, 2, 3], K=[4])))
 
@@ -229,25 +231,25 @@ def _prio(pid, text, groups, **kw):
 _prio("C01", "In-flight <= HandlersQuantity: the capacity monitor (ghost handed-out minus released, +1 <= H) runs at the instant of every output write on every path of every real function of the round "
       "(calcTactic, recalcTactic, io, iou, prioritize, feedback readers), each started from an arbitrary state satisfying the invariant and shown to preserve it (inductive step: histories of any length), "
       "plus loop()/main() runs with releases at every point, runs from New, the constructor establishing the invariant, and the simple handler's receive->Handle->Release order.",
-      [_G_STEP_A, _G_STEP_B, _G_PRIOR, _G_LOOP1, _G_NEW, _G_RUN, _G_SIMPLE])
+      [_G_STEP_A, _G_STEP_B, _G_PRIOR, _G_LOOP1, _G_NEW, _G_NEW_RATE, _G_RUN, _G_RUN_RATE, _G_SIMPLE])
 _prio("C02", "Exactly-once, correctly tagged, FIFO per priority: pending-item monitor (an input read is followed by the output write of exactly that item with the priority its channel is registered under, "
       "before any other read) on all step and loop paths; completeness and per-priority order on bounded runs from New to termination; Handle exactly once per item in the simple handler.",
-      [_G_STEP_A, _G_STEP_B, _G_PRIOR, _G_LOOP1, _G_RUN, _G_SIMPLE])
+      [_G_STEP_A, _G_STEP_B, _G_PRIOR, _G_LOOP1, _G_RUN, _G_RUN_RATE, _G_SIMPLE])
 _prio("C05", "Saturation: from any state with actual[p] <= strategic[p] (shares as the constructor leaves them) and every input never empty, after any batch of releases one real base() round ends with "
       "actual[p] == strategic[p] for every p, every hand-out keeps actual[p] <= strategic[p], and waits only when all handlers are busy; the constructor sorts priorities high->low before dividing (any Inputs map order).",
-      [_G_ROUND, _G_SAT3, _G_NEW, _G_SORTL])
+      [_G_ROUND, _G_SAT3, _G_NEW, _G_NEW_RATE, _G_SORTL])
 _prio("C06", "Progress, reduced to solver-decidable obligations plus the ranking argument of DESIGN 7 C06: (P0) constructor guarantees every share >= 1 and shares sum to H; (P1) the discipline blocks on feedback only while "
       "something is in flight (loop/main/run harnesses); (P2) nothing in flight + data somewhere => an item is delivered in one round without a release; (P3) a round proceeds only if every uncrowded priority got >= 1; "
       "(P4) a sole active priority reaches H in one round.",
-      [_G_ROUND, _G_ROUND2, _G_NEW, _G_LOOP1, _G_RUN, _v2p("^VerifC01_step_calcTactic$", dict(n=[1, 2, 3]), dict(n=[1, 2, 3, 4])),
+      [_G_ROUND, _G_ROUND2, _G_NEW, _G_NEW_RATE, _G_LOOP1, _G_RUN, _G_RUN_RATE, _v2p("^VerifC01_step_calcTactic$", dict(n=[1, 2, 3]), dict(n=[1, 2, 3, 4])),
        _v2p("^VerifC01_step_feedback$", dict(n=[1, 2], J=[2]), dict(n=[1, 2, 3], J=[3])), _G_LATE])
 _prio("C07", "Termination exactly when drained and released: real loop()/main() from arbitrary between-rounds states with every input open / closed-with-backlog / drained: output and err are closed only with nothing in flight "
       "and (normal mode) all inputs closed, empty and marked drained; Drained is set only on an observed close; promptness (returns after exactly g releases, no idle sleep); no error value in normal mode.",
-      [_G_LOOP1, _G_PROMPT, _v2p("^VerifC01_step_io$", dict(n=[1, 2, 3], J=[2]), dict(n=[1, 2, 3, 4], J=[3])), _G_RUN, _G_LATE, _G_SIMPLE])
+      [_G_LOOP1, _G_PROMPT, _v2p("^VerifC01_step_io$", dict(n=[1, 2, 3], J=[2]), dict(n=[1, 2, 3, 4], J=[3])), _G_RUN, _G_RUN_RATE, _G_LATE, _G_SIMPLE])
 _prio("C15", "Divider contract and fail-safe faults: the stub divider ASSERTS its arguments (non-nil distribution, dividend <= H, list of configured priorities strictly descending) at every call on every path; "
       "a fault (non-zero added total != dividend) injected at any call of a round or of the constructor yields ErrDividerBad from safeDivide/New/loop, no hand-out afterwards, capacity monitor still holds, "
       "main reports exactly that value and closes; a whole round (real base(), n<=2, H<=3) from an arbitrary state with the fault at call index 0..3 of the round (first calcTactic, its retry after waiting for a release, either recalcTactic division) fails with ErrDividerBad; New rejects zero shares (Fair exact, Rate for any float values, arbitrary sum-preserving divider).",
-      [_G_NEW, _G_SAFEDIV, _G_STEP_A, _G_STEP_B, _G_LOOP1, _G_RFAULT, _G_RUNFAULT, _G_SORTL])
+      [_G_NEW, _G_NEW_RATE, _G_SAFEDIV, _G_STEP_A, _G_STEP_B, _G_LOOP1, _G_RFAULT, _G_RUNFAULT, _G_SORTL])
 
 # ---- v1 ---------------------------------------------------------------------------------------------------
 
@@ -330,7 +332,7 @@ PROPS["C19"] = dict(
              dict(mod="v2", pkg="join", overlay="harness/v2/join"), dict(mod="v2", pkg="join/unite", overlay="harness/v2/unite"),
              dict(mod="v2", pkg="limit", overlay="harness/v2/limit"), dict(mod="v1", pkg="priority", overlay="harness/v1/priority"),
              dict(mod="v1", pkg="join", overlay="harness/v1/join")],
-    groups=[_G_LOOP1, _G_RUN, _G_RUNFAULT, _G_NEW, _G_SIMPLE, _V1_MAIN, _V1_NEW, _V1_RUNFAULT, _V1_SIMPLE,
+    groups=[_G_LOOP1, _G_RUN, _G_RUN_RATE, _G_RUNFAULT, _G_NEW, _G_NEW_RATE, _G_SIMPLE, _V1_MAIN, _V1_NEW, _V1_RUNFAULT, _V1_SIMPLE,
             _v1p("^VerifC16_v1prio_stop$", dict(n=[1], J=[1], B=[1], K=[1]), dict(n=[1], J=[1], B=[1], K=[1])),
             dict(mod="v2", pkg="join", overlay="harness/v2/join", harness="^VerifC03_join_", params=dict(quick=dict(JS=[2], M=[3], T=[2]), thorough=dict(JS=[2, 3], M=[4], T=[2]))),
             dict(mod="v2", pkg="join/unite", overlay="harness/v2/unite", harness="^VerifC03_unite_", params=dict(quick=dict(JS=[2], K=[2], T=[2]), thorough=dict(JS=[2, 3], K=[3], T=[2]))),
@@ -363,7 +365,9 @@ PROPS["C10"] = dict(
             dict(mod="v1", pkg="join", overlay="harness/v1/join", harness="^VerifC03_v1join_normal$", params=dict(quick=dict(JS=[2, 3], M=[4], T=[2]), thorough=dict(JS=[2, 3, 4], M=[5], T=[2]))),
             # bounded runs with a periodic ticker, timed arrivals and a latency parameter lambda (c = 3)
             dict(mod="v2", pkg="join", overlay="harness/v2/join", harness="^VerifC10_run$", timeout=dict(quick=60000, thorough=180000),
-                 params=dict(quick=dict(M=[1], inacc=[100, 50], c=[3], ticks=[3]), thorough=dict(M=[1, 2], inacc=[100, 50], c=[3], ticks=[3]))),
+                 params=dict(quick=dict(M=[1], inacc=[100, 50], c=[3], ticks=[3]), thorough=dict(M=[1], inacc=[100, 50], c=[3], ticks=[3]))),
+            dict(mod="v2", pkg="join", overlay="harness/v2/join", harness="^VerifC10_run$", timeout=dict(quick=60000, thorough=180000), thorough_only=True,
+                 params=dict(quick=dict(M=[2], inacc=[100], c=[3], ticks=[3]), thorough=dict(M=[2], inacc=[100], c=[3], ticks=[3]))),
             dict(mod="v2", pkg="join/unite", overlay="harness/v2/unite", harness="^VerifC10_run$", timeout=dict(quick=60000, thorough=180000),
                  params=dict(quick=dict(M=[1], inacc=[100], c=[3], ticks=[3]), thorough=dict(M=[1, 2], inacc=[100], c=[3], ticks=[3]))),
             dict(mod="v1", pkg="join", overlay="harness/v1/join", harness="^VerifC10_run$", timeout=dict(quick=60000, thorough=180000),
